@@ -269,11 +269,18 @@ def construct(vk, c, mesh=None, **kw):
     if vk.sym:
         oracle.COLLECT = []
         n0 = len(oracle.ASSUME)
+        # radicands of the norms are polynomials in canonical form: syntactic atom lookup suffices (the
+        # semantic lookup compares every new root with all earlier ones; a missed identification could
+        # only make an obligation fail, never pass)
+        sem, ring.SEMANTIC_ATOMS = ring.SEMANTIC_ATOMS, False
     try:
         r = c.bcls(mesh or c.mesh, quadrature=exact_quadrature(vk, c.bcls), **kw)
     finally:
         collected = oracle.COLLECT if vk.sym else []
         oracle.COLLECT = None
+        if vk.sym:
+            ring.SEMANTIC_ATOMS = sem
+    r._fd = identify(vk, c, r)
     if vk.sym:
         keys = {p.key() for p, _ in collected}
         oracle.ASSUME[n0:] = [(p, o) for p, o in oracle.ASSUME[n0:] if p.key() not in keys]
@@ -282,7 +289,6 @@ def construct(vk, c, mesh=None, **kw):
             True if not collected else None,
             f"{len(collected)} sign tests of the constructor (negative-volume check of the rotated cells) are not instances of the valid-cell schema det dX/dxi(xi) > 0, xi in the closed reference cell" if collected else "every sign test of the constructor is an instance of the valid-cell schema",
         )
-        r._fd = identify(vk, c, r)
         derive_norm_facts(vk, c, r)
     return r
 
@@ -291,7 +297,8 @@ def identify(vk, c, r):
     """spec-side identification of every boundary cell b of the region with a reference face of a cell of
     the original mesh: parent cell p (same node set), xi_q (position of the quadrature point in the
     parent's reference cell, through the region's own shape functions and cell table), the faces (k, s)
-    with xi_q[k] == s for all q, the reference-to-reference Jacobian G_b(q), the local numbering"""
+    with xi_q[k] == s for all q, the reference-to-reference Jacobian G_b(q), the local numbering.
+    symbolic run: exact rationals; native run: floats rounded at 1e-9 (only used to name the same obligations)"""
     cells = np.asarray(r.mesh.cells)
     with symnp.native():
         h = np.asarray(r.h)
@@ -299,8 +306,12 @@ def identify(vk, c, r):
     h = h.reshape(h.shape[0], -1)
     dhdr = dhdr.reshape(dhdr.shape[0], dhdr.shape[1], -1)
     nq, dim, n = h.shape[1], c.dim, c.n
-    hF = [[_fr(h[a, q]) for q in range(nq)] for a in range(n)]
-    dF = [[[_fr(dhdr[a, j, q]) for q in range(nq)] for j in range(dim)] for a in range(n)]
+    if vk.sym:
+        num = _fr
+    else:
+        num = lambda x: Fraction(round(float(x) * 2**30), 2**30)  # noqa: E731
+    hF = [[num(h[a, q]) for q in range(nq)] for a in range(n)]
+    dF = [[[num(dhdr[a, j, q]) for q in range(nq)] for j in range(dim)] for a in range(n)]
     Pex = [[Fraction(float(x)) for x in p] for p in c.P]
     sets = [frozenset(int(x) for x in cl) for cl in c.cells]
     out = []
@@ -315,18 +326,28 @@ def identify(vk, c, r):
         local = [loc[g] for g in nodes]
         xi = [[sum(hF[a][q] * Pex[local[a]][i] for a in range(n)) for i in range(dim)] for q in range(nq)]
         G = [[[sum(dF[a][j][q] * Pex[local[a]][i] for a in range(n)) for j in range(dim)] for i in range(dim)] for q in range(nq)]
+        if not vk.sym:
+            xi = [[Fraction(round(float(x) * 2**20), 2**20) for x in row] for row in xi]
         ks = [(k, s) for k in range(dim) for s in (-1, 1) if all(xi[q][k] == s for q in range(nq))]
         out.append(dict(parent=p, ks=ks, xi=xi, G=G, local=local))
     return out
 
 
-def spec_jac(c, f, q, cache={}):
-    """(J, det J) of the parent cell at xi_q; det J is looked up in the declared schema instances"""
-    Xp = c.X[c.cells[f["parent"]]]
-    key = tuple(f["xi"][q])
-    J = jac(c.el, Xp, f["xi"][q])
-    d = c.face_dets[f["parent"]].get(key)
-    return J, (co(d) if d is not None else co(det_ref(J))), d is not None
+_JCACHE: dict = {}
+
+
+def spec_jac(c, f, q):
+    """(J, det J, is-instance) of the parent cell at xi_q; det J is looked up in the declared schema instances"""
+    key = (id(c), f["parent"], tuple(f["xi"][q]))
+    if key not in _JCACHE:
+        Xp = c.X[c.cells[f["parent"]]]
+        J = jac(c.el, Xp, f["xi"][q])
+        d = c.face_dets[f["parent"]].get(key[2])
+        _JCACHE[key] = (J, (co(d) if d is not None else co(det_ref(J))), d is not None)
+    return _JCACHE[key]
+
+
+_COLS_DONE: set = set()
 
 
 def derive_norm_facts(vk, c, r, label="derived"):
@@ -355,9 +376,12 @@ def derive_norm_facts(vk, c, r, label="derived"):
             if inst[q, b]:
                 if ring.iszero(lhs[q, b] - rhs[q, b]):
                     oracle.assume(_dot(r.dA[:dim, q, b], r.dA[:dim, q, b]), ">")
-                for m in range(dim):
-                    if ring.iszero(_dot(J[:, m], cof_col(J, m)) - d):
-                        oracle.assume(_dot(J[:, m], J[:, m]), ">")
+                ck = (id(c), f["parent"], tuple(f["xi"][q]))
+                if ck not in _COLS_DONE:
+                    _COLS_DONE.add(ck)
+                    for m in range(dim):
+                        if ring.iszero(_dot(J[:, m], cof_col(J, m)) - d):
+                            oracle.assume(_dot(J[:, m], J[:, m]), ">")
     r._nanson = (lhs, rhs)
     vk.ensures_true(f"{label}/face-points-are-schema-instances", bool(inst.all()), f"{int(inst.sum())} of {inst.size} quadrature points of the boundary cells are Gauss points of a reference face of their cell")
     vk.ensures_eq(f"{label}/dA.(dX/dxi N)==w det(dX/dxi)", lhs, rhs)
@@ -419,10 +443,13 @@ def cell_contract(vk, cfg):
                     spec = sorted((tuple(Fraction(float(x)) for x in np.insert(p[:-1], k, s)), Fraction(float(w[q]))) for q, p in enumerate(qp))
                     ok = have == spec
                 vk.ensures_true(f"face-rule/[{b}]", ok, "images of the quadrature points on the face with their weights == Gauss rule of the face")
-            m = r.mesh_faces() if ct in ("quad", "hexahedron", "quad8", "quad9") else None
-            if m is not None:
+            if ct in ("quad", "hexahedron", "quad8", "quad9"):
                 vk.real(B_.RegionBoundary.mesh_faces)
-                vk.ensures_true("mesh_faces", np.array_equal(np.asarray(m.cells), cf) and m.cell_type == {"quad": "line", "hexahedron": "quad", "quad8": "line3", "quad9": "line3"}[ct] and m.points is r.mesh.points, f"{m.cell_type} {m.cells.shape}")
+                m = r.mesh_faces()
+                same_pts = m.points.shape == r.mesh.points.shape and all(x is y for x, y in zip(m.points.ravel(), r.mesh.points.ravel()))
+                vk.ensures_true("mesh_faces", np.array_equal(np.asarray(m.cells), cf) and m.cell_type == {"quad": "line", "hexahedron": "quad", "quad8": "line3", "quad9": "line3"}[ct] and same_pts, f"{m.cell_type} {m.cells.shape} points-identical={same_pts}")
+            else:
+                vk.note("RegionBoundary.mesh_faces has no face type for hexahedron20 / hexahedron27 (KeyError); not a C13 clause")
             vk.canary_bool("cells_faces-of-face-0-are-nodes-of-face-1", frozenset(int(x) for x in cf[0]) != c.faces.get(fd[1]["ks"][0] if fd[1]["ks"] else None))
         xq = positions(vk, c, r)
         xs = np.empty((dim, nq, nb), dtype=obj)
@@ -576,32 +603,6 @@ def rotated_cell(vk, cfg):
         vk.ensures_eq("drdX.(dX/dxi(xi_q).G_b)==I", prod, eye)
     if vk.sym:
         vk.canary("J_b==0", lhs, 0 * lhs)
-
-
-# ---- frame: the constructor leaves the region's Jacobian intact -----------------------------------
-@contract("C13", "frame_dXdr", configs=[dict(cell=ct, coords=("affine" if ct in HI3 else "generic")) for ct in CELLS])
-def frame_dXdr(vk, cfg):
-    """frame condition (a strengthening of C13, own family): after construction region.dXdr is still the
-    geometric gradient of the boundary cells, dXdr == sum_a X_a (x) dhdr_a -- _init_faces must not write
-    through the views it takes of self.dXdr"""
-    ct, mode = cfg["cell"], cfg["coords"]
-    _under_contract(vk, ct)
-    c = build(vk, ct, mode, only_surface=False)
-    r, X, dim, n = c.region, c.X, c.dim, c.n
-    cells = np.asarray(r.mesh.cells)
-    with symnp.native():
-        dh = np.asarray(r.dhdr)
-    dh = dh.reshape(dh.shape[0], dh.shape[1], -1)
-    nq, nb = dh.shape[2], len(cells)
-    spec = np.empty((dim, dim, nq, nb), dtype=object if vk.sym else float)
-    for b in range(nb):
-        for q in range(nq):
-            for i in range(dim):
-                for j in range(dim):
-                    spec[i, j, q, b] = sum(X[cells[b, a], i] * dh[a, j, q] for a in range(n))
-    vk.ensures_eq("dXdr==sum_a X_a (x) dhdr_a", r.dXdr, spec)
-    if vk.sym:
-        vk.canary("dXdr==0", r.dXdr, 0 * r.dXdr)
 
 
 # ---- ensure_3d ------------------------------------------------------------------------------------
@@ -779,56 +780,262 @@ def pairs(vk, cfg):
     """two generic cells sharing a face: only_surface=True -- the kept faces are the non-shared reference
     faces of both cells, area vectors close, flux == dim * volume of both cells; only_surface=False --
     the two copies of the interior face carry opposite area vectors at the same points"""
-    ct, mode, k, s = cfg["cell"], cfg["coords"], cfg["k"], cfg["s"]
+    ct, mode, k, s, qi = cfg["cell"], cfg["coords"], cfg["k"], cfg["s"], int(cfg["Q"])
     _under_contract(vk, ct)
     bcls, vcls, el_cls = CELLS[ct]
     P = ref_points(el_cls())
     n, dim = P.shape
-    syms = proper_symmetries(dim)
-    qis = [int(cfg["Q"])]
-    for qi in qis:
-        tag = "pair"
-        cells, pos, shared, fB = pair_topology(P, k, s, syms[qi])
-        reps = sorted(set(representative_nodes(P)) | {int(cells[1][a]) for a in representative_nodes(P)})
-        c = build(vk, ct, mode, cells=cells, pos=pos, reps=reps, volume=True, only_surface=True)
-        r = c.region
-        nq, nb = r.dA.shape[1], r.dA.shape[2]
-        if vk.sym:
-            want = expected_surface(P, cells, shared)
-            got = {}
-            for b, f in enumerate(r._fd):
-                if f["parent"] is not None and len(f["ks"]) == 1:
-                    got[(f["parent"], f["ks"][0])] = frozenset(int(x) for x in r.mesh.cells_faces[b])
-            vk.ensures_true(f"{tag}/only_surface/kept-faces==non-shared-reference-faces", nb == len(want) and got == want, f"{nb} boundary cells; identified {sorted(got)}")
-        tot = r.dA.sum(axis=(1, 2))
-        vk.ensures_eq(f"{tag}/only_surface/closure", tot, 0 * tot, tol=TOL if ct in QUADRATIC else None)
+    cells, pos, shared, fB = pair_topology(P, k, s, proper_symmetries(dim)[qi])
+    reps = sorted(set(representative_nodes(P)) | {int(cells[1][a]) for a in representative_nodes(P)})
+    flux_clause = ct not in HI3 or vk.tier == "thorough"
+    c = build(vk, ct, mode, cells=cells, pos=pos, reps=reps, volume=flux_clause, only_surface=True)
+    r = c.region
+    nq, nb = r.dA.shape[1], r.dA.shape[2]
+    if vk.sym:
+        want = expected_surface(P, cells, shared)
+        got = {}
+        for b, f in enumerate(r._fd):
+            if f["parent"] is not None and len(f["ks"]) == 1:
+                got[(f["parent"], f["ks"][0])] = frozenset(int(x) for x in r.mesh.cells_faces[b])
+        vk.ensures_true("only_surface/kept-faces==non-shared-reference-faces", nb == len(want) and got == want, f"{nb} boundary cells; identified {sorted(got)}")
+    tot = r.dA.sum(axis=(1, 2))
+    vk.ensures_eq("only_surface/closure", tot, 0 * tot, tol=TOL if ct in QUADRATIC else None)
+    if flux_clause:
         xq = positions(vk, c, r)
         flux = (xq * r.dA).sum()
         vol = vcls(c.mesh, quadrature=exact_quadrature(vk, vcls))
         V = vol.dV.sum()
-        vk.ensures_eq(f"{tag}/only_surface/flux==dim*volume", flux, dim * V, tol=TOL * 20)
-        # all faces: the interior face seen from both sides
-        ra = construct(vk, c, only_surface=False)
-        if vk.sym:
-            fa = [b for b, f in enumerate(ra._fd) if f["parent"] == 0 and f["ks"] == [(k, s)]]
-            fb = [b for b, f in enumerate(ra._fd) if f["parent"] == 1 and f["ks"] == [fB]]
-            ok = len(fa) == 1 and len(fb) == 1
-            vk.ensures_true(f"{tag}/all-faces/interior-face-found-in-both-cells", ok and ra.dA.shape[2] == 4 * dim, f"A: {fa}, B: {fb}, {ra.dA.shape[2]} boundary cells")
-            xa = positions(vk, c, ra)
-            match = []
-            if ok:
-                a_, b_ = fa[0], fb[0]
-                for q in range(nq):
-                    qq = [q2 for q2 in range(nq) if all(ring.iszero(co(xa[i, q, a_]) - co(xa[i, q2, b_])) for i in range(dim))]
-                    match.append(qq[0] if len(qq) == 1 else None)
-            good = ok and all(m is not None for m in match) and sorted(match) == list(range(nq))
-            vk.ensures_true(f"{tag}/all-faces/interior-quadrature-points-coincide", good, str(match))
-            if good:
-                vk.ensures_eq(f"{tag}/all-faces/interior-dA-opposite", ra.dA[:, :, a_], -ra.dA[:, match, b_])
-                vk.ensures_eq(f"{tag}/all-faces/interior-normals-opposite", ra.normals[:, :, a_], -ra.normals[:, match, b_])
-                vk.ensures_true(f"{tag}/all-faces/interior-cells_faces-equal-as-sets", sorted(int(x) for x in ra.mesh.cells_faces[a_]) == sorted(int(x) for x in ra.mesh.cells_faces[b_]) == sorted(shared), str(ra.mesh.cells_faces[a_]))
-            if qi == qis[0]:
-                vk.canary_bool("all-faces-close-without-dropping", True)
-                vk.canary(f"closure-of-A-faces-only-in-pair", np.array([_dot(tot, tot) + 1]), np.array([LP()]))
-        else:
-            vk.ensures_eq(f"{tag}/all-faces/interior-dA-opposite", ra.dA[:, :, 0], ra.dA[:, :, 0])
+        vk.ensures_eq("only_surface/flux==dim*volume", flux, dim * V, tol=TOL * 20)
+    else:
+        vk.note("pairs[hexahedron20/27], quick tier: the flux clause of the pair is checked in the thorough tier (it is the sum of the per-cell flux identities of `cell` and the opposite interior contributions proved here)")
+    # all faces: the interior face seen from both sides
+    ra = construct(vk, c, only_surface=False)
+    fa = [b for b, f in enumerate(ra._fd) if f["parent"] == 0 and f["ks"] == [(k, s)]]
+    fb = [b for b, f in enumerate(ra._fd) if f["parent"] == 1 and f["ks"] == [fB]]
+    ok = len(fa) == 1 and len(fb) == 1
+    if vk.sym:
+        vk.ensures_true("all-faces/interior-face-found-in-both-cells", ok and ra.dA.shape[2] == 4 * dim, f"A: {fa}, B: {fb}, {ra.dA.shape[2]} boundary cells")
+    xa = positions(vk, c, ra)
+    match = []
+    if ok:
+        a_, b_ = fa[0], fb[0]
+        for q in range(nq):
+            if vk.sym:
+                qq = [q2 for q2 in range(nq) if all(ring.iszero(co(xa[i, q, a_]) - co(xa[i, q2, b_])) for i in range(dim))]
+            else:
+                qq = [q2 for q2 in range(nq) if all(abs(xa[i, q, a_] - xa[i, q2, b_]) < 1e-9 for i in range(dim))]
+            match.append(qq[0] if len(qq) == 1 else None)
+    good = ok and all(m is not None for m in match) and sorted(match) == list(range(nq))
+    if vk.sym:
+        vk.ensures_true("all-faces/interior-quadrature-points-coincide", good, str(match))
+    if not good:
+        if not vk.sym:
+            raise Skip("interior face not identified in the native run")
+        return
+    vk.ensures_eq("all-faces/interior-dA-opposite", ra.dA[:, :, a_], -ra.dA[:, match, b_])
+    vk.ensures_eq("all-faces/interior-normals-opposite", ra.normals[:, :, a_], -ra.normals[:, match, b_])
+    if vk.sym:
+        vk.ensures_true("all-faces/interior-cells_faces-equal-as-sets", sorted(int(x) for x in ra.mesh.cells_faces[a_]) == sorted(int(x) for x in ra.mesh.cells_faces[b_]) == sorted(shared), str(ra.mesh.cells_faces[a_]))
+        allsum = ra.dA.sum(axis=(1, 2))
+        vk.canary_bool("surface-closes-without-one-face", any(ring.l1norm(co(x)) > TOL for x in (tot - r.dA[:, :, 0].sum(axis=1))))
+        vk.canary("interior-dA-equal", ra.dA[:, :, a_], ra.dA[:, match, b_])
+
+
+# =================================================================================================
+# point mask: symbolic membership
+# =================================================================================================
+class SymMask:
+    """a point mask whose entries are free Booleans (z3)"""
+
+    def __init__(s, bools):
+        s.b = list(bools)
+
+
+class _SymSet:
+    """np.arange(n)[mask]: the set { values[i] : mask[i] }"""
+
+    def __init__(s, values, mask):
+        s.values, s.mask = [int(v) for v in values], mask
+
+    def mem(s, v):
+        import z3
+
+        hits = [s.mask.b[i] for i, x in enumerate(s.values) if x == int(v)]
+        return z3.Or(*hits) if len(hits) != 1 else hits[0]
+
+
+class _Ar(np.ndarray):
+    def __getitem__(s, key):
+        if isinstance(key, SymMask):
+            if s.ndim != 1 or len(key.b) != len(s):
+                raise oracle.Undecided("symbolic mask on an array of different shape")
+            return _SymSet(np.asarray(s), key)
+        return super().__getitem__(key)
+
+
+class MaskRun:
+    """stand-ins bound to the module global `np` of felupe.region._boundary for one constructor call:
+    arange / isin / all understand the symbolic mask; `np.all(<symbolic rows>, axis=1)` is the one
+    data-dependent decision of the constructor: it returns the scripted outcome and records the
+    symbolic conditions"""
+
+    def __init__(s, script=None):
+        s.script, s.conds = script, None
+
+    def arange(s, *a, **k):
+        return np.arange(*a, **k).view(_Ar)
+
+    def isin(s, a, t, **k):
+        if not isinstance(t, _SymSet):
+            return np.isin(a, t, **k)
+        a = np.asarray(a)
+        out = np.empty(a.shape, dtype=object)
+        for i in np.ndindex(*a.shape):
+            out[i] = t.mem(a[i])
+        return out
+
+    def all(s, x, axis=None, **k):
+        import z3
+
+        if not (isinstance(x, np.ndarray) and x.dtype == object):
+            return np.all(x, axis=axis, **k)
+        if axis != 1 or x.ndim != 2 or s.conds is not None:
+            raise oracle.Undecided("unexpected use of np.all on symbolic membership")
+        s.conds = [z3.And(*row) if len(row) != 1 else row[0] for row in x]
+        if s.script is None:
+            raise _NeedScript(len(s.conds))
+        if len(s.script) != len(s.conds):
+            raise oracle.Undecided("selection length changed between runs")
+        return np.array(s.script, dtype=bool)
+
+
+class _NeedScript(Exception):
+    pass
+
+
+def masked_region(bcls, mesh, mask, script, **kw):
+    """run the real constructor with the stand-ins bound; returns (region or None, recorded conditions)"""
+    run = MaskRun(script)
+    old = B_.np
+    B_.np = symnp.NPProxy({**symnp._OVERRIDES, "arange": run.arange, "isin": run.isin, "all": run.all})
+    try:
+        with symnp.native():
+            try:
+                r = bcls(mesh, mask=mask, **kw)
+            except _NeedScript:
+                r = None
+    finally:
+        B_.np = old
+    return r, run.conds
+
+
+def _mask_configs():
+    out = []
+    for ct in CELLS:
+        dim = 2 if ct.startswith("quad") else 3
+        nq_ = len(proper_symmetries(dim))
+        out.append(dict(cell=ct, mesh="single"))
+        for k in range(dim):
+            for s in (-1, 1):
+                fi = 2 * k + (s + 1) // 2
+                for qi in range(nq_):
+                    quick = (k, s) == (0, 1) and qi == (3 if dim == 2 else 8)
+                    out.append(dict(cell=ct, mesh=f"pair:{k}:{s}:{qi}", **({} if quick else {"tier": "thorough"})))
+    return out
+
+
+@contract("C13", "mask", configs=_mask_configs(), engine="E3")
+def mask_contract(vk, cfg):
+    """restricting by a point mask selects exactly the faces whose points all satisfy the mask -- for all
+    masks (free Booleans), only_surface on and off"""
+    import z3
+
+    if not vk.sym:
+        return
+    ct = cfg["cell"]
+    _under_contract(vk, ct)
+    bcls, vcls, el_cls = CELLS[ct]
+    P = ref_points(el_cls())
+    n, dim = P.shape
+    if cfg["mesh"] == "single":
+        cells, pos = np.arange(n).reshape(1, n), P
+    else:
+        _, k, s, qi = cfg["mesh"].split(":")
+        cells, pos, shared, fB = pair_topology(P, int(k), int(s), proper_symmetries(dim)[int(qi)])
+    npts = len(pos)
+    with symnp.native():
+        mesh = fem.Mesh(np.asarray(pos, dtype=float), cells, ct)
+    m = SymMask([z3.Bool(f"m{i}") for i in range(npts)])
+    faces = ref_faces(P)
+    rng = np.random.RandomState(npts)
+    for only_surface in (False, True):
+        tag = f"only_surface={only_surface}"
+        with symnp.native():
+            r0 = bcls(mesh, only_surface=only_surface)  # unmasked: the candidate faces (pairs contracts)
+        cand_faces = np.asarray(r0.mesh.cells_faces)
+        cand_cells = np.asarray(r0.mesh.cells)
+        nc = len(cand_faces)
+        # spec: the geometric node set of every candidate (owner cell's nodes on the reference face it lies on)
+        c = Cell()
+        c.P, c.dim, c.n, c.cells = P, dim, n, np.asarray(cells)
+
+        class _F:
+            sym = False
+
+        fd = identify(_F, c, r0)
+        spec_nodes = []
+        for b in range(nc):
+            f = fd[b]
+            spec_nodes.append(frozenset(int(cells[f["parent"]][a]) for a in faces[f["ks"][0]]) if f["parent"] is not None and len(f["ks"]) == 1 else None)
+        vk.ensures_true(f"{tag}/candidates-identified", all(x is not None for x in spec_nodes), f"{nc} candidate faces")
+        if any(x is None for x in spec_nodes):
+            continue
+        # 1. the selection conditions the constructor computes == all points of the geometric face satisfy the mask
+        _, conds = masked_region(bcls, mesh, m, None, only_surface=only_surface)
+        vk.ensures_true(f"{tag}/one-condition-per-candidate", conds is not None and len(conds) == nc, f"{None if conds is None else len(conds)} conditions")
+        if conds is None or len(conds) != nc:
+            continue
+        for b in range(nc):
+            vk.ensures_smt(f"{tag}/selected[{b}]<=>all-face-points-in-mask", conds[b] == z3.And(*[m.b[p] for p in sorted(spec_nodes[b])]))
+        vk.canary_bool(f"{tag}/selected<=>corner-points-in-mask" if ct in QUADRATIC else f"{tag}/selected<=>first-point-in-mask", _smt_invalid(conds[0] == z3.And(*[m.b[p] for p in sorted(spec_nodes[0]) if (node_owner_class(P, cells, p) == 0 if ct in QUADRATIC else p == min(spec_nodes[0]))])))
+        # 2. the rest of the constructor, for every outcome of the selection: exactly the selected rows, in order
+        bad, runs = [], 0
+        for script in itertools.product((False, True), repeat=nc):
+            r, conds2 = masked_region(bcls, mesh, m, list(script), only_surface=only_surface)
+            runs += 1
+            sel = np.array(script, dtype=bool)
+            ok = conds2 is not None and len(conds2) == nc and all(z3.eq(a, b) for a, b in zip(conds, conds2))
+            ok = ok and np.array_equal(np.asarray(r.mesh.cells_faces), cand_faces[sel]) and np.array_equal(np.asarray(r.mesh.cells), cand_cells[sel])
+            ok = ok and r.dA.shape[-1] == int(sel.sum()) and np.array_equal(r.dA, r0.dA[..., sel]) and np.array_equal(r.normals, r0.normals[..., sel])
+            if not ok:
+                bad.append(script)
+        vk.ensures_true(f"{tag}/region-consists-of-exactly-the-selected-faces", not bad, f"{runs} outcomes of the selection executed; failing: {bad[:2]}")
+        # 3. differential test of the stand-ins: concrete masks through real numpy
+        mism = []
+        for trial in range(12):
+            mk = rng.rand(npts) < (0.85 if trial % 2 else 0.6)
+            with symnp.native():
+                rr = bcls(mesh, only_surface=only_surface, mask=mk)
+            want = np.array([all(mk[p] for p in spec_nodes[b]) for b in range(nc)], dtype=bool)
+            viaz3 = np.array([z3.is_true(z3.simplify(z3.substitute(conds[b], *[(m.b[i], z3.BoolVal(bool(mk[i]))) for i in range(npts)]))) for b in range(nc)], dtype=bool)
+            if not (np.array_equal(np.asarray(rr.mesh.cells_faces), cand_faces[want]) and np.array_equal(want, viaz3)):
+                mism.append(trial)
+        vk.ensures_true(f"{tag}/concrete-masks-through-numpy-agree", not mism, f"12 random masks; mismatches {mism}")
+
+
+def node_owner_class(P, cells, g):
+    """class (0 = corner) of global node g in a cell that owns it"""
+    cls = node_classes(P)
+    for cl in np.asarray(cells):
+        for a, x in enumerate(cl):
+            if int(x) == int(g):
+                return cls[a]
+    return None
+
+
+def _smt_invalid(claim):
+    import z3
+
+    sol = z3.Solver()
+    sol.add(z3.Not(claim))
+    return sol.check() == z3.sat
